@@ -17,6 +17,7 @@ import (
 	"verifharness/internal/common"
 	"verifharness/internal/coqfmt"
 	"verifharness/internal/load"
+	"verifharness/internal/userrules"
 )
 
 type config struct {
@@ -85,6 +86,7 @@ func workspace(base string) {
 	w("e/gen.go", "package e\n\nfunc before(IN int) int { return IN }\n\n//line greet.tmpl:40\nfunc after(IN int, xs []int) int {\n\tif len(xs) >= 0 {\n\t\tIN = IN + 1\n\t}\n\treturn IN\n}\n\n/*line other.y:7:3*/ func third(IN int) int { return IN }\n")
 	// diagnostics whose text contains '%' (quoted code, fmt verbs): must be forwarded verbatim by every front-end
 	w("f/pct.go", "package f\n\nimport \"fmt\"\n\nfunc Q(s string, x int) (string, bool) {\n\treturn fmt.Sprintf(\"\\\"%s\\\"\", s), !(x%2 != 0)\n}\n")
+	w("g/g.go", "package g\n\ntype big struct{ a [40]int }\n\nfunc H(b big, fs []func()) int {\n\tfor _, f := range fs {\n\t\tdefer f()\n\t}\n\tfor _, x := range []big{b} {\n\t\t_ = x\n\t}\n\treturn b.a[0]\n}\n")
 	w("d/d.go", "package d\n\nimport \"strings\"\n\nfunc D(s string) bool { return strings.Index(s, \"x\") >= 0 }\n\nfunc E(t []int) []int { return t[:] }\n")
 }
 
@@ -112,6 +114,8 @@ func Run(tier string, seed int64, outDir string) *common.Meta {
 		{"tags", []string{"-enable=#diagnostic,#style", "-disable=#experimental,#opinionated"}, []string{"-enable=#diagnostic,#style", "-disable=#experimental,#opinionated"}, nil},
 		{"parameter", []string{"-enable=captLocal", "-@captLocal.paramsOnly=false"}, []string{"-enable=captLocal", "-disable=", "-@captLocal.paramsOnly=false"}, nil},
 		{"enable-all minus tags", []string{"-enableAll", "-disable=#performance,#opinionated"}, []string{"-enable-all", "-disable=#performance,#opinionated"}, nil},
+		{"names whose tags are disabled", []string{"-enable=#diagnostic,deferInLoop,hugeParam,captLocal", "-disable=#experimental,#performance"}, []string{"-enable=#diagnostic,deferInLoop,hugeParam,captLocal", "-disable=#experimental,#performance"}, nil},
+		{"tag enabled, name disabled", []string{"-enable=#style,#performance", "-disable=captLocal,hugeParam,#opinionated"}, []string{"-enable=#style,#performance", "-disable=captLocal,hugeParam,#opinionated"}, nil},
 	}
 	if tier == "thorough" {
 		rng := common.NewRand(seed, "c08")
@@ -220,6 +224,60 @@ func Run(tier string, seed int64, outDir string) *common.Meta {
 			if strings.Join(outs[exe], "\n") != strings.Join(outs["go-critic"], "\n") {
 				missing, extra := diff(outs["go-critic"], outs[exe])
 				meta.Fail("C08/"+exe+"/differs-on-old-go-directive", fmt.Sprintf("module with 'go 1.12' in go.mod, config %q: %s reports %d diagnostics, go-critic %d; missing: %v; extra: %v", c.name, exe, len(outs[exe]), len(outs["go-critic"]), head(missing, 3), head(extra, 3)), map[string]interface{}{"config": c.name, "go.mod": "go 1.12"})
+			}
+		}
+	}
+	// user rule files with package- and file-scoped filters: the dynamic ruleguard checker must see the
+	// package and file it is analysing in every front-end
+	{
+		ur := filepath.Join(outDir, "ws_userrules")
+		os.RemoveAll(ur)
+		defer os.RemoveAll(ur)
+		rdir := userrules.Workspace(ur)
+		rl := "-@ruleguard.rules=" + filepath.Join(rdir, "good.go") + "," + filepath.Join(rdir, "second.go")
+		for _, pkgs := range [][]string{{"./..."}, {"./store", "./api"}} {
+			outs := map[string][]string{}
+			for _, exe := range []string{"go-critic", "gocritic", "go-critic-analysis", "gocritic-analysis"} {
+				var args []string
+				if strings.HasSuffix(exe, "-analysis") {
+					args = append([]string{"-enable=ruleguard,captLocal", "-disable=", rl}, pkgs...)
+				} else {
+					args = append([]string{"check", "-shorterErrLocation=false", "-enable=ruleguard,captLocal", rl}, pkgs...)
+				}
+				out, _, err := common.Run(240*time.Second, ur, env, filepath.Join(bin, exe), args...)
+				runs++
+				if err != nil {
+					meta.Fail("C08/"+exe+"/run", err.Error(), args)
+					continue
+				}
+				ds, _ := parseLines(out)
+				outs[exe] = keys(ds)
+			}
+			// the library, one package at a time, is the reference for "what the rules say"
+			want := 0
+			for _, k := range outs["go-critic"] {
+				if strings.Contains(k, "user rule") {
+					want++
+				}
+			}
+			if want == 0 {
+				meta.TieBroken = append(meta.TieBroken, "user rules workspace: go-critic reported no user-rule diagnostic")
+			}
+			for _, exe := range []string{"gocritic", "go-critic-analysis", "gocritic-analysis"} {
+				if strings.Join(outs[exe], "\n") != strings.Join(outs["go-critic"], "\n") {
+					missing, extra := diff(outs["go-critic"], outs[exe])
+					meta.Fail("C08/"+exe+"/differs-on-user-rules", fmt.Sprintf("user rule files with package/file-scoped filters, packages %v: %s reports %d diagnostics, go-critic %d; missing: %v; extra: %v", pkgs, exe, len(outs[exe]), len(outs["go-critic"]), head(missing, 3), head(extra, 3)),
+						map[string]interface{}{"rules": "harness/internal/userrules (good.go, second.go)", "packages": pkgs})
+				}
+			}
+			// and what the rules say is decidable from their text: apiOnly only in api, storeOnly only in store
+			for exe, ks := range outs {
+				for _, k := range ks {
+					if strings.Contains(k, userrules.MsgAPIOnly) && !strings.Contains(k, "/api/") || strings.Contains(k, userrules.MsgStoreOnly) && !strings.Contains(k, "/store/") ||
+						strings.Contains(k, userrules.MsgMainFile) && !strings.Contains(k, "/main.go") {
+						meta.Fail("C08/"+exe+"/user-rule-sees-wrong-package", fmt.Sprintf("%s, packages %v: a package- or file-scoped user rule fired outside its scope: %s", exe, pkgs, k), map[string]interface{}{"packages": pkgs, "diagnostic": k})
+					}
+				}
 			}
 		}
 	}
